@@ -6,7 +6,7 @@ D1b: PilotDescription likewise
 D2: convert_slots_to_new / convert_slots_to_old / Slot.__init__
 """
 
-from vfw.api import obligation, check, reach, trace, real
+from vfw.api import obligation, check, reach, trace, real, conc
 from harness.common import rp
 
 import radical.pilot.task_description as m_td
@@ -296,3 +296,78 @@ def _slots(specs, form):
               '%s != %s', _idx(s['gpus']), _mask_list(gm, 2))
     # old slots pass unchanged through convert_slots_to_old
     check(real(convert_slots_to_old, back) == back, 'old slots changed')
+
+
+# ------------------------------------------------------------------------------
+# D3: function tasks (PythonTask).  dill / msgpack are C extensions at which
+# CrossHair concretises: the *shape* of the call (how many positional and
+# keyword arguments, which entry point) is the symbolic part, values are
+# concrete.
+#
+def _payload(a=1, b=2, *rest, k=10, **kw):
+    return ('payload', a, b, rest, k, sorted(kw.items()))
+
+
+@obligation(params={'nargs': (0, 3), 'nkw': (0, 2), 'via': (0, 1)},
+            timeout={'quick': 300, 'thorough': 600},
+            funcs=['radical/pilot/pytask.py:PythonTask.__new__',
+                   'radical/pilot/pytask.py:PythonTask.get_func_attr',
+                   'radical/pilot/pytask.py:PythonTask.pythontask'],
+            bounds='function call with 0..3 positional and 0..2 keyword '
+                   'arguments, encoded via PythonTask(f, args, kwargs) or via '
+                   'the @pythontask decorator; argument values concrete '
+                   '(serialisation is a C extension)')
+def h_pytask(nargs, nkw, via):
+    """an encoded function task decodes to a call with the same result"""
+    nargs, nkw, via = conc(nargs, 0, 3), conc(nkw, 0, 2), conc(via, 0, 1)
+    args   = tuple([7, 'x', 3.5][:nargs])
+    kwargs = dict(list({'k': 99, 'z': [1, 2]}.items())[:nkw])
+    want   = _payload(*args, **kwargs)
+    if via == 0:
+        enc = real(rp.PythonTask, _payload, args, kwargs)
+    else:
+        enc = real(rp.PythonTask.pythontask(_payload), *args, **kwargs)
+    check(isinstance(enc, str), 'encoded task is a %s', type(enc).__name__)
+    func, a, kw = real(rp.PythonTask.get_func_attr, enc)
+    reach()
+    got = func(*a, **(kw or {}))
+    check(got == want, 'decoded call returns %r, direct call %r (args %r '
+          'kwargs %r)', got, want, a, kw)
+
+
+# ------------------------------------------------------------------------------
+# D1c: attribute values survive verify()
+#
+VALS = [('pre_exec',  ['module load x', {'0': 'export A=1', '1': ['a', 'b']}]),
+        ('post_exec', ['echo done', {'0': 'rm -f tmp'}]),
+        ('pre_launch', ['date']),
+        ('environment', {'A': '1', 'B': 'two words'}),
+        ('arguments', ['-n', '1', '', 'a b']),
+        ('tags', {'colocate': 'g1', 'exclusive': True}),
+        ('input_staging', [{'source': 'a', 'target': 'b', 'action': 'Copy'}]),
+        ('metadata', {'k': [1, 2, {'x': None}]}),
+        ('services', ['service.0001']),
+        ('timeout', 12.5)]
+
+
+@obligation(params={'i': (0, len(VALS) - 1), 'j': (0, len(VALS) - 1)},
+            partition={'quick': ('i', 10), 'thorough': ('i', 10)},
+            timeout={'quick': 300, 'thorough': 600},
+            funcs=['radical/pilot/task_description.py:TaskDescription._verify'],
+            bounds='two attributes out of 10 (lists with per-rank dictionaries, '
+                   'environment, arguments incl. empty strings, tags, staging '
+                   'dicts, nested metadata, services, timeout) set to '
+                   'representative values')
+def h_td_values(i, j):
+    """verify() loses nothing: list / dict valued attributes keep their value"""
+    i, j = conc(i, 0, len(VALS) - 1), conc(j, 0, len(VALS) - 1)
+    import copy
+    fd = {'uid': 't0', 'executable': '/bin/true'}
+    for k, v in (VALS[i], VALS[j]):
+        fd[k] = copy.deepcopy(v)
+    d = rp.TaskDescription(from_dict=fd)
+    real(d.verify)
+    reach()
+    for k, v in (VALS[i], VALS[j]):
+        check(d[k] == v, 'verify() changed %s: %r -> %r', k, v, d[k])
+    _roundtrip(d, rp.TaskDescription)
